@@ -378,6 +378,8 @@ def build_ops(Pm):
     op('pow_num', lambda a, b: a ** b, 'pow', ('E2', 'OPowNum'), with_scalar(['Scalar', 'Boolean'], NUMS),
        numpool=[-2, -1, -1.5, -0.5, 0, 0.5, 1, 1.5, 2, 3, 4, 5, -3, 2.0, -1.0])
     op('pow', lambda a, b: a ** b, 'pow', ('E2', 'OPow'), [('Scalar', 'Scalar'), ('Boolean', 'Scalar')])
+    # integer exponents given as a Scalar (the negative ones are converted to float on the way: seeded change C01-J)
+    op('pow_intexp', lambda a, b: a ** b, 'pow', ('E2', 'OPow'), [('Scalar', 'Scalar')], kinds=[None, 'int'])
     op('mpow', lambda a, b: a ** b, 'negpow_det', ('E2', 'OXPowM'), [('Matrix', 'number'), ('Matrix33', 'number')],
        numpool=[-2, -1, 0, 1, 2, 3, -3], numkind='int')
     op('qpow', lambda a, b: a ** b, 'negpow_zero', ('E2', 'OXPowQ'), [('Quaternion', 'number')],
@@ -423,6 +425,19 @@ def build_ops(Pm):
     for ax in (0, 1, 2):
         op('axis_rotation%d' % ax, (lambda ax: lambda a: M3.axis_rotation(a, ax))(ax), 'none', ('E1', 'OPass'),
            [('Scalar',)])
+    # ---- constructors of vectors from angles and lengths (every argument's mask reaches the result) ----
+    V3 = Pm.Vector3
+    op('from_ra_dec_length', lambda a, b, c: V3.from_ra_dec_length(a, b, c), 'none', ('E3', 'OEuler'), [('Scalar', 'Scalar', 'Scalar')])
+    # ... with a length whose numbers are all exactly one, also under its mask (seeded change C01-I)
+    op('from_ra_dec_unit_length', lambda a, b, c: V3.from_ra_dec_length(a, b, S(np.ones(c.shape) if c.shape else 1., c._mask_)),
+       'none', ('E3', 'OEuler'), [('Scalar', 'Scalar', 'Scalar')])
+    op('from_ra_dec', lambda a, b: V3.from_ra_dec_length(a, b), 'none', ('E2', 'OAdd'), [('Scalar', 'Scalar')])
+    op('from_cylindrical', lambda a, b, c: V3.from_cylindrical(a, b, c), 'none', ('E3', 'OEuler'), [('Scalar', 'Scalar', 'Scalar')])
+    op('longitude', lambda a: a.longitude(), 'none', ('E1', 'OPass'), [('Vector3',)])
+    op('latitude', lambda a: a.latitude(), 'azero', ('E1', 'OUnit'), [('Vector3',)])
+    op('pair_rot90', lambda a: a.rot90(), 'none', ('E1', 'OPass'), [('Pair',)])
+    op('pair_angle', lambda a: a.angle(), 'none', ('E1', 'OPass'), [('Pair',)])
+    op('pair_swapxy', lambda a: a.swapxy(), 'none', ('E1', 'OPass'), [('Pair',)])
     # ---- products / contractions ----
     vv = same_pairs(VS)
     op('dot', lambda a, b: a.dot(b), 'none', ('E2', 'ODot'), vv)
@@ -467,8 +482,8 @@ def build_ops(Pm):
 
 RESTRICTED = ['div', 'div_num', 'rdiv_num', 'div_arr', 'rdiv_arr', 'idiv', 'idiv_num', 'floordiv', 'mod',
               'floordiv_num', 'mod_num', 'rfloordiv_num', 'rmod_num', 'ifloordiv', 'imod', 'ifloordiv_num',
-              'imod_num', 'pow_num', 'pow', 'mpow', 'qpow', 'sqrt', 'log', 'arcsin', 'arccos', 'reciprocal',
-              'unit', 'with_norm', 'qrecip', 'to_matrix3', 'inverse', 'mrecip', 'unitary', 'ucross', 'perp', 'proj', 'sep',
+              'imod_num', 'pow_num', 'pow', 'pow_intexp', 'mpow', 'qpow', 'sqrt', 'log', 'arcsin', 'arccos', 'reciprocal',
+              'unit', 'with_norm', 'latitude', 'qrecip', 'to_matrix3', 'inverse', 'mrecip', 'unitary', 'ucross', 'perp', 'proj', 'sep',
               'element_div', 'matdiv', 'qdiv', 'from_rotation', 'twovec01', 'twovec20',
               'sqrt_nocheck', 'log_nocheck', 'arcsin_nocheck', 'arccos_nocheck', 'reciprocal_nozeros',
               'inverse_nozeros']
